@@ -6,7 +6,7 @@ From Coq Require Import NArith ZArith List Uint63 Bool.
 From Coq.Strings Require Import Byte.
 From LOF Require Export Corr.Common Model.Build.
 From LOF Require Export Corr.Pkt.   (* the record kinds of package protocol: [prec], [model_rt] *)
-From LOF Require Import Base.Bytes Base.Res Model.Wire Model.Proto Model.BuildSw Proofs.HelloBaseP.
+From LOF Require Import Base.Bytes Base.Res Model.Wire Model.Proto Model.BuildSw Model.Parse Proofs.HelloBaseP.
 Import ListNotations.
 Open Scope N_scope.
 
@@ -15,7 +15,8 @@ Inductive erec :=
 | EBucket (b : brec) | EMatch (fs : list mfrec)
 | EPkt (first : list byte)    (* an Ethernet frame, given by its first encoding (package protocol has no recipe model) *)
 | ERec (p : prec)             (* a value of a record kind of package protocol (Model/Proto2.v) *)
-| EHello (xid : N) (es : list (list N)).   (* a hello whose element list was assigned by hand: version bitmaps *)
+| EHello (xid : N) (es : list (list N))    (* a hello whose element list was assigned by hand: version bitmaps *)
+| EDec (xid : N) (m : mrec).               (* the value obtained by parsing the encoding of a built message *)
 
 Definition model_of (e : erec) : tree :=
   match e with
@@ -24,6 +25,7 @@ Definition model_of (e : erec) : tree :=
   | EPkt b => match dec_eth b with Ok t => t | _ => T KRaw [VB b] [] end
   | ERec _ => T KRaw [VB []] []      (* not used: record kinds are replayed by [replay_rec] *)
   | EHello x es => hello_tree x es
+  | EDec x m => match parse_top (fst (marshal (build_m x m))) with Ok t => t | _ => T KRaw [VB []] [] end
   end.
 
 Fixpoint bytes_eqb (a b : list byte) : bool :=
@@ -188,7 +190,7 @@ Definition spec_of (e : erec) (b : list byte) : option tree :=
   | EInstr _ => whole (sdec_instr b)
   | EBucket _ => whole (sdec_bucket b)
   | EMatch _ => whole (sdec_match b)
-  | EPkt _ | ERec _ => None
+  | EPkt _ | ERec _ | EDec _ _ => None
   end.
 
 Definition oracle02 (c : caseE) : bool :=
@@ -237,7 +239,7 @@ Definition thm_hyp (c : caseE) : bool :=
     match e with
     | EMsg x m => msg_ok m && (x <? 4294967296)%N
     | EAct a => act_ok a | EMf f => mf_ok f | EInstr i => instr_ok i | EBucket b => bucket_ok b | EMatch fs => match_ok fs
-    | EPkt _ | ERec _ => false
+    | EPkt _ | ERec _ | EDec _ _ => false
     | EHello x es => hello_ok (map HBitmap es) && (x <? 4294967296)%N
     end
   end.
